@@ -26,7 +26,7 @@ ID = "C02"
 LEVEL = "model_checking"
 NAN, INF = float("nan"), float("inf")
 ROWS1 = [0.3, 0.55, 0.0, 0.5, 1.25, INF, -INF, NAN]  # 1.25 = 2*end - inflection of the canonical Concave (a pole of its unused branch)
-ROWS2 = [(0.25, 0.625), (0.625, 0.25), (0.0, 1.0), (1.5, 0.5), (NAN, 0.5), (INF, -INF)]
+ROWS2 = [(0.25, 0.625), (0.625, 0.25), (0.0, 1.0), (1.5, 0.5), (NAN, 0.5), (INF, -INF), (1.0, NAN)]  # last: a saturated operand next to a NaN one
 LOCKS_ALL = [(lp, d, lr) for lp in (False, True) for d in (NAN, 0.5) for lr in (False, True)]
 LOCKS_FEW = [(False, NAN, False), (True, 0.5, True)]
 
